@@ -66,10 +66,30 @@ def run_impl(case):
         stack.local = devicing.IpLocalDevice(stack=stack, uid=stack.local.uid, name=opt(n, untok), ha=opt(h, untok_ip))
         Remote, hatok, haun = devicing.IpRemoteDevice, tok_ip, untok_ip
     else:
-        stack = stacking.RemoteStack(puid=int(p), uid=opt(u, int), name=opt(n, untok), ha=opt(h, untok))
         Remote, hatok, haun = devicing.RemoteDevice, tok, untok
     devs = []
     ident = {}
+    pre = case.get("pre")
+    caller = None
+    if pre and not ip:
+        # a stack constructed with caller-supplied, already populated index odicts (documented constructor
+        # arguments), each in its own order; the caller keeps its references
+        from ioflo.aid.odicting import odict
+        maker = stacking.RemoteStack()
+        for du, dn_, dh_ in pre["devs"]:
+            d = devicing.RemoteDevice(stack=maker, uid=int(du), name=untok(dn_), ha=untok(dh_))
+            ident[id(d)] = len(devs)
+            devs.append(d)
+        U = odict((devs[i].uid, devs[i]) for i in pre["U"])
+        N = odict((devs[i].name, devs[i]) for i in pre["N"])
+        H = odict((devs[i].ha, devs[i]) for i in pre["H"])
+        caller = (U, N, H)
+        stack = stacking.RemoteStack(puid=int(p), uid=opt(u, int), name=opt(n, untok), ha=opt(h, untok),
+                                     remotes=U, nameRemotes=N, haRemotes=H)
+        for d in devs:
+            d.stack = stack
+    elif not ip:
+        stack = stacking.RemoteStack(puid=int(p), uid=opt(u, int), name=opt(n, untok), ha=opt(h, untok))
 
     def fdev(d):
         return "%s,%s,%s" % (d.uid, tok(d.name), hatok(d.ha))
@@ -78,9 +98,13 @@ def run_impl(case):
         return sep("%s:%s" % (kt(k), ident.get(id(v), "?")) for k, v in od.items())
 
     def dump():
-        return "p=%s L=%s U=%s N=%s H=%s D=%s" % (stack.puid, fdev(stack.local), index(stack.uidRemotes),
-                                                  index(stack.nameRemotes), index(stack.haRemotes, hatok),
-                                                  sep((fdev(d) for d in devs), ";"))
+        # with caller-supplied indexes the state is read through the caller's own references
+        U, N, H = caller if caller else (stack.uidRemotes, stack.nameRemotes, stack.haRemotes)
+        flag = ""
+        if caller and not (stack.remotes is U and stack.uidRemotes is U and stack.nameRemotes is N and stack.haRemotes is H):
+            flag = " !the stack no longer uses the caller's index odicts"
+        return "p=%s L=%s U=%s N=%s H=%s D=%s%s" % (stack.puid, fdev(stack.local), index(U), index(N), index(H, hatok),
+                                                    sep((fdev(d) for d in devs), ";"), flag)
 
     def dev(i):
         i = int(i)
@@ -241,6 +265,16 @@ def gen(rng, n_ops, ip=False):
     loc = [str(luid), init[2] if init[2] != "~" else "Device%d" % luid,
            (norm_ip(init[3]) if init[3] != "~" else "n12357") if ip else (init[3] if init[3] != "~" else "_")]
     devs, ops = [], []          # devs: [uid, name, ha, added]
+    pre = None
+    if not ip and rng.random() < 0.35:
+        # caller-supplied, already populated indexes in three different orders
+        k = rng.choice([2, 3, 3, 4])
+        us = rng.sample([x for x in UIDS if x != loc[0]], k)
+        ns = rng.sample([x for x in NAMES + ["q", "r"] if x != loc[1]], k)
+        hs = rng.sample([x for x in HAS[1:] + ["v", "u", "t"] if x != loc[2]], k)
+        devs = [[us[i], ns[i], hs[i], True] for i in range(k)]
+        perm = lambda: rng.sample(range(k), k)
+        pre = {"devs": [d[:3] for d in devs], "U": perm(), "N": perm(), "H": perm()}
 
     def used(f):
         return {d[f] for d in devs if d[3]} | {loc[f]}
@@ -251,7 +285,7 @@ def gen(rng, n_ops, ip=False):
     for _ in range(n_ops):
         blind = rng.random() < 0.3
         c = rng.randrange(20)
-        if not devs or c < 4:
+        if (not devs and not pre) or not devs or c < 4:
             if blind:
                 u, n, h = rng.choice(["~"] + UIDS), rng.choice(["~", "~"] + NAMES), rng.choice(["~"] + HASP)
             else:
@@ -298,6 +332,8 @@ def gen(rng, n_ops, ip=False):
             for d in devs:
                 d[3] = False
             ops.append(["removeall"])
+    if pre:
+        return {"init": init, "ops": ops, "pre": pre}
     return {"init": init, "ops": ops, "ip": True} if ip else {"init": init, "ops": ops}
 
 
@@ -310,7 +346,9 @@ class CHECK(core.Check):
     N_SEARCH = 4000
     RULE = ("sequences of 1..40 calls (create / add / move / rename / reha / remove / removeall) on up to ~10 RemoteDevice "
             "objects over uids 1..6, six names (incl. default-name look-alikes), five host addresses (incl. the empty default "
-            "that the local device has), stacks with given or defaulted local uid/name/ha and puid 0 or 3; 40% of the histories "
+            "that the local device has), stacks with given or defaulted local uid/name/ha and puid 0 or 3; 35% of the plain histories "
+            "start from a stack CONSTRUCTED with caller-supplied, already populated remotes=/nameRemotes=/haRemotes= odicts that "
+            "list 2-4 remotes in three independent orders (state read through the caller's references); 40% of the histories "
             "with IpLocalDevice/IpRemoteDevice and (host, port) addresses over 9 host spellings (7 of which the normaliser "
             "rewrites) x 3 ports + the default port; bounded-exhaustive: "
             "every sequence of <=2 (quick) / <=4 (thorough) calls from an 18-call alphabet after a 5-call prefix (two indexed remotes, one not added), and from a 14-call Ip alphabet (re-addressing to rewritten spellings, to the local device's and another remote's address). non-trivial = at "
@@ -336,7 +374,8 @@ class CHECK(core.Check):
     LEVEL_TEXT = ("Full proofs on the model (no _partial theorem): the consistency invariant (the three indexes hold the same remote "
                   "objects in the same order, each under its current uid/name/ha, no remote twice, no duplicate key, no key equal to the "
                   "local device's) holds for a new stack and is kept by every call with any arguments, hence after every history "
-                  "(C37_init_consistent, C37_step_keeps_consistent, C37_remote_indexes_consistent); on a consistent stack no call ends "
+                  "(C37_init_consistent, C37_step_keeps_consistent, C37_remote_indexes_consistent; the invariant asks for the same remotes, "
+                  "not the same order, so it also covers stacks constructed with caller-supplied indexes in differing orders); on a consistent stack no call ends "
                   "in an exception other than the rejection and removeRemote never stops between its three deletions "
                   "(C37_never_crashes); a rejected call changes neither the indexes nor any device nor the uid counter "
                   "(C37_rejected_unchanged); an accepted move/rename/reha replaces the entry in place - same object, same position, "
@@ -371,6 +410,14 @@ class CHECK(core.Check):
         for d in range(1, depth + 1):
             for seq in itertools.product(alpha, repeat=d):
                 yield {"init": ["0", "~", "~", "~"], "ops": pre + [list(x) for x in seq]}
+        # caller-supplied indexes in different orders: uid order 0,1,2; name order 2,0,1; ha order 1,2,0
+        prep = {"devs": [["3", "m", "z"], ["4", "n", "x"], ["5", "l", "y"]], "U": [0, 1, 2], "N": [2, 0, 1], "H": [1, 2, 0]}
+        alphap = [["move", "0", "6"], ["move", "2", "2"], ["move", "1", "3"], ["rename", "2", "k"], ["rename", "0", "a"],
+                  ["rename", "1", "l"], ["reha", "0", "w"], ["reha", "1", "v"], ["reha", "2", "x"], ["remove", "0"],
+                  ["remove", "1"], ["remove", "2"], ["create", "~", "~", "u"], ["add", "3"], ["add", "0"], ["removeall"]]
+        for d in range(1, depth + 1):
+            for seq in itertools.product(alphap, repeat=d):
+                yield {"init": ["0", "~", "~", "~"], "ops": [list(x) for x in seq], "pre": prep}
         # Ip devices: re-addressing to hosts the normaliser of IpDevice.__init__ rewrites, to the local device's
         # address in another spelling, to another remote's; creation with such spellings; removal afterwards
         prei = [["create", "~", "~", "n1"], ["create", "~", "b", "z2"], ["add", "0"], ["add", "1"]]
@@ -385,6 +432,14 @@ class CHECK(core.Check):
         if case.get("ip"):
             return ["initip " + " ".join(case["init"])] + [" ".join(["createip"] + w[1:] if w[0] == "create" else w)
                                                            for w in case["ops"]]
+        pre = case.get("pre")
+        if pre:
+            d = pre["devs"]
+            first = "initpre %s %s %s %s %s" % (" ".join(case["init"]), sep((",".join(x) for x in d), ";"),
+                                                sep("%s:%d" % (d[i][0], i) for i in pre["U"]),
+                                                sep("%s:%d" % (d[i][1], i) for i in pre["N"]),
+                                                sep("%s:%d" % (d[i][2], i) for i in pre["H"]))
+            return [first] + [" ".join(w) for w in case["ops"]]
         return ["init " + " ".join(case["init"])] + [" ".join(w) for w in case["ops"]]
 
     def impl(self, case):
@@ -409,13 +464,13 @@ class CHECK(core.Check):
         n = len(case["ops"])
         rej = sum(1 for l in out[1:] if l.startswith("REJECTED"))
         most = max([len(parse(l)[1]["U"]) for l in out if l != "bad-op"] or [0])
-        return "%s%s/%s/max-indexed=%s" % ("ip/" if case.get("ip") else "", "len<=6" if n <= 6 else "len7-15" if n <= 15 else "len16+",
+        return "%s%s/%s/max-indexed=%s" % ("ip/" if case.get("ip") else "pre/" if case.get("pre") else "", "len<=6" if n <= 6 else "len7-15" if n <= 15 else "len16+",
                                          "no-reject" if rej == 0 else "rejects<=33%" if rej * 3 <= n else "rejects>33%",
                                          most if most < 3 else "3+")
 
     def shrink_candidates(self, case):
         ops = case["ops"]
-        extra = {"ip": True} if case.get("ip") else {}
+        extra = {"ip": True} if case.get("ip") else {"pre": case["pre"]} if case.get("pre") else {}
         for k in range(1, len(ops)):
             yield dict(extra, init=case["init"], ops=ops[:k])
         for i in range(len(ops)):
